@@ -86,6 +86,16 @@ def diff_is_failure(prop, p):
     return False
 
 
+def judge(prop, case, impl, model):
+    """an oracle failure ('!!') anywhere in the case outranks a trace difference earlier in it"""
+    ops = ["case " + case.cid] + case.lines
+    for i, op in enumerate(ops):
+        a = impl[i] if i < len(impl) else None
+        if a is not None and a.startswith("!!"):
+            return [vlib.Problem("oracle", case, i, op, a, model[i] if i < len(model) else None)]
+    return vlib.default_judge(case, impl, model)
+
+
 def nontrivial_key(op, result):
     w = op.split(" ")
     r = (result or "").split(" ")
@@ -186,17 +196,18 @@ def with_stutter(rng, case, cid):
 def generate(prop, tier, seed, scale=1):
     rng = random.Random("%s-%s" % (prop, seed))
     quick = tier == "quick"
+    # decisive, cheap batches first (check.py stops collecting after 25 problems, tie-only differences included)
+    yield "lock probe", [Case("probe%d" % i, ["conc probe-lock"]) for i in range(2)]
+    rounds = 40 if quick else 400
+    soak = [Case("soak-s%d" % n, ["conc soak singleton %d %d" % (n, rounds)]) for n in ([2, 3, 8, 16] if quick else range(2, 17))]
+    soak += [Case("soak-m%d" % n, ["conc soak managed %d %d" % (n, rounds)]) for n in ([1, 4, 15] if quick else range(1, 16))]
+    yield "tsan soak of the un-hooked code", soak
     x2 = exhaustive_singleton(2)
     xm = exhaustive_managed(1, 1) + exhaustive_managed(1, 2) + exhaustive_managed(2, 1)
     if x2:
         yield "exhaustive singleton: all schedules of 2 threads", x2
     if xm:
         yield "exhaustive managed thread: all schedules, 1 observer x <=2 loads, 2 observers x 1 load", xm
-    yield "lock probe", [Case("probe%d" % i, ["conc probe-lock"]) for i in range(2)]
-    rounds = 40 if quick else 400
-    soak = [Case("soak-s%d" % n, ["conc soak singleton %d %d" % (n, rounds)]) for n in ([2, 3, 8, 16] if quick else range(2, 17))]
-    soak += [Case("soak-m%d" % n, ["conc soak managed %d %d" % (n, rounds)]) for n in ([1, 4, 15] if quick else range(1, 16))]
-    yield "tsan soak of the un-hooked code", soak
     if not quick:
         x3 = exhaustive_singleton(3)
         if x3:
